@@ -100,6 +100,16 @@ def translate(ctx):
                 thr = int(st.test.comparators[0].value)
         if thr is None: raise vf.Refusal('quadtree.__init__: `if self.num_elements > <literal>` not found')
         out.append('Definition quadtree_split_threshold : nat := %d.' % thr)
+        # line_polygon_intersections: tol = 1.e-9
+        f = find_def(ge, ['line_polygon_intersections'])
+        ltol = None
+        for st in f.body:
+            if isinstance(st, ast.Assign) and len(st.targets) == 1 and isinstance(st.targets[0], ast.Name) \
+                    and st.targets[0].id == 'tol':
+                if isinstance(st.value, ast.Constant) and isinstance(st.value.value, (int, float)): ltol = float(st.value.value)
+                else: raise vf.Refusal('line_polygon_intersections: tol is not a literal')
+        if ltol is None: raise vf.Refusal('line_polygon_intersections: no `tol = <literal>`')
+        out.append('Definition lpi_tol : Q := %s.   (* %r *)' % (coq_q(ltol), ltol))
         # quadtree.search: the pinned form (result of the neighbour wave) or the repaired form (proposed fix
         # C12-quadtree-search-fallback: when the wave finds nothing, the first element of the root whose bounding box
         # and polygon contain the point); any other shape is refused
@@ -165,6 +175,7 @@ def run_task(t):
     r['kind'] = kind
     r['label'] = args[0].get('label')
     r['spec'] = args[0]
+    r['repo'] = args[1]
     return r
 
 
@@ -226,6 +237,29 @@ def subrects_agree(model, impl):
         return False
 
 
+def lpi_agrees(model, impl, meta, r, counts):
+    """line_polygon_intersections: the model's exact hits, merged as the implementation merges them (the stated
+    abstraction, c12_oracle.lpi_merge), against the implementation's list"""
+    import numpy as np
+    if impl['ambiguous']:
+        counts['discarded_lpi_parameter_at_threshold'] += 1; return True
+    try:
+        hits = []
+        for h in [x for x in model.split(';') if x.strip()]:
+            v = [Fraction(int(a), int(b)) for a, b in (t.split('/') for t in h.split())]
+            hits.append((float(v[2]), float(v[3])))
+        poly = [np.array(q) for q in impl['poly']]      # (the worker's own polygon: refine() orders columns per process)
+        l0 = np.array(meta[2][0])
+        pts, amb = c12_oracle.lpi_merge(hits, l0, poly)
+        if amb:
+            counts['discarded_lpi_distance_at_rounding_boundary'] += 1; return True
+        if len(pts) != len(impl['pts']): return False
+        scale = max([abs(v) for q in impl['poly'] for v in q] + [1.0])
+        return all(abs(a[0] - b[0]) <= 1e-9 * scale and abs(a[1] - b[1]) <= 1e-9 * scale for a, b in zip(pts, impl['pts']))
+    except Exception:
+        return False
+
+
 def process(ctx, exe, results):
     """Aggregate worker results: oracle failures, counts, and the model/implementation diff."""
     counts = Counter()
@@ -258,6 +292,8 @@ def process(ctx, exe, results):
                 lines.append('trk\t%s\t%s\t%s\t%s' % (w[0], t['line'], t['percol'], t['dtab']))
                 expect.append(('trk', r, t))
             ctx.evaluations += r['counts'].get('lines', 0) - len(r['tracks'])
+            for l, e, m in zip(r.get('plines', []), r.get('pimpl', []), r.get('pmeta', [])):
+                lines.append(l); expect.append(('prim', e, m, r))
         elif kind == 'prim':
             for l, e, m in zip(r['lines'], r['impl'], r['meta']):
                 lines.append(l); expect.append(('prim', e, m, r))
@@ -303,11 +339,18 @@ def process(ctx, exe, results):
             else:
                 name = e[2][0]
                 ncmp[name] += 1
-                ok = (o == e[1]) if name != 'sub_rectangles' else subrects_agree(o, e[1])
+                if name == 'line_intersects_rectangle':
+                    ok = o.split()[0] == e[1]
+                    counts['max_cohen_sutherland_rounds'] = max(counts['max_cohen_sutherland_rounds'], int(o.split()[1]))
+                    if int(o.split()[1]) >= 8: ok = False        # the model's fuel bound must never be reached
+                elif name == 'line_polygon_intersections':
+                    ok = lpi_agrees(o, e[1], e[2], e[3], counts)
+                else:
+                    ok = (o == e[1]) if name != 'sub_rectangles' else subrects_agree(o, e[1])
                 if name == 'bounds_of_points' and not ok:
                     ok = subrects_agree(o, e[1]) and False
                 if not ok:
-                    ctx.disagreement(name, {'geometry': e[3]['spec'], 'case': e[2][1:]}, o[:300], e[1][:300])
+                    ctx.disagreement(name, {'geometry': e[3]['spec'], 'case': e[2][1:]}, o[:300], str(e[1])[:300])
         for k, v in ncmp.items(): ctx.corr_cases(k, v)
     return counts, per_geo
 
@@ -332,7 +375,8 @@ def run(ctx):
     ctx.assumptions += ['the model computes in exact rationals, the implementation in doubles: agreement is claimed for points at least the stated tolerance away from every column edge and quadtree split line',
                         'completeness of the aided searches (search_aids_agree) is proved under the explicit hypotheses tiling and connected_near; both are evaluated per point on every generated geometry (see hypotheses_met)',
                         'bbox = bounds_of_points(polygon) (hypothesis of plain_search_exhaustive / search_aids_agree): the driver tabulates exactly that, and the correspondence of bounds_of_points and of near_point-dependent answers checks it against column.bounding_box',
-                        'column_track: the theorems cover the assembly (selection, entry/exit pairing, clip dropping, sorting) over abstract per-column intersection lists; line_polygon_intersections itself is only tested',
+                        'column_track: the assembly theorems are over abstract per-column intersection lists; line_polygon_intersections and line_intersects_rectangle are modelled exactly (coq/C12/LineModel.v) up to the np.unique/round de-duplication, which is a stated abstraction (irrelevant for convex columns: it merges only points less than 1e-3 x longest side apart, a clip column_track drops anyway) reproduced by the harness when the two are compared',
+                        'convex-column theorems (in_polygon_convex, chord, crossed_convex_column_not_skipped) need every three vertices of the column in list order to make a left turn; the number of such columns is recorded per geometry under hypotheses_met',
                         'blocks: a block spans its whole layer interval (PyTOUGH convention, also used by block_contains_point); the top block reaches up to the column surface']
     ctx.stage()
     ok = translate(ctx)
@@ -361,7 +405,8 @@ def run(ctx):
             lab = '%s#%d' % (base, n); n += 1
         hyp[lab] = {'points': c['points'], 'tiling_true': c['tiling_true'], 'tiling_false': c['tiling_false'],
                     'connected_near_true': c['connected_near_true'], 'connected_near_false': c['connected_near_false'],
-                    'outside_points': c['outside_points']}
+                    'outside_points': c['outside_points'],
+                    'columns': c['columns'], 'columns_strictly_convex_ccw': c['columns_strictly_convex_ccw']}
     ctx.hyp_met = hyp
     ctx.extra['input_distribution'] = {k: v for k, v in sorted(counts.items())}
     ctx.extra['geometries'] = [{k: (v if k not in ('dx', 'dy', 'dz', 'refine', 'delete') or len(str(v)) < 200 else str(v)[:200] + '...')
